@@ -130,7 +130,7 @@ package core
 // is what was bought minus what is left (never more than the gas limit), the block pool ends
 // debited by exactly the used gas, and 'failed' reports the VM error.
 //@ func StateTransition.TransitionDb
-//@   requires stok(st) && st.evm != nil && st.evm.chainConfig != nil && st.gas == 0 && st.initialGas == 0 && st.evm.interpreter != nil && st.evm.StateDB != nil
+//@   requires stok(st) && st.evm != nil && st.evm.chainConfig != nil && st.gas == 0 && st.initialGas == 0 && st.evm.interpreter != nil && st.evm.StateDB != nil && snapctr < 9223372036854775807
 //@   requires wide(uint64(*st.gp), 128) <= 9223372036854775807
 //@   ensures[C06] @wrongnonce msg_checknonce(st.msg) && old(nonces[msg_from(st.msg)]) != msg_nonce(st.msg) ==> err != nil
 //@   ensures[C06] @used err == nil ==> usedGas == st.initialGas - st.gas && usedGas <= msg_gas(st.msg) && st.initialGas == msg_gas(st.msg)
